@@ -28,8 +28,13 @@ fn read_lines<R: BufRead>(reader: R, args: &Args, planes: &mut Planes) -> Result
 
     let mut app_state = AppCounters::from_update_interval(args.update);
 
-    for line in reader.lines().map_while(Result::ok) {
-        let Some(message) = get_message(&line) else {
+    // Split on raw bytes: a line that is not valid UTF-8 is just another unusable line and must not
+    // end the stream (`lines()` reports it as an error). Only a genuine I/O error stops the loop.
+    for line in reader.split(b'\n').map_while(Result::ok) {
+        let line = String::from_utf8_lossy(&line);
+        let line = line.trim_end_matches('\r');
+
+        let Some(message) = get_message(line) else {
             continue;
         };
 
